@@ -76,3 +76,20 @@ func init() {
 		thorough:      []buildSpec{plain(16), race(8)},
 	}
 }
+
+func init() {
+	props["C04"] = propSpec{
+		level: "exploration",
+		rule: "one scenario at a time per process: construct in {Split, Buffer, ParallelBuffer, Map, ProcessParallel, GenerateParallel, MergeIterators, Chain, MergeSlices, MergeSliceIterators, BufferedChannel, dt.Map and adt.Map Iterator/Keys/Values, " +
+			"4 two-level nestings} x n (0..59) x cut point k (every k for n<=8, classes {0,1,mid,n-1,n} otherwise) x stop mode {exhaust, Close (twice), cancel, Close then cancel, two concurrent Close calls, Close / cancel while the consumer is parked " +
+			"on a never-ending source; Split outputs closed in a seeded order} x workers {1,2,3,4,8} x GOMAXPROCS; the process is verified clean before the scenario; after the stop it is brought to quiescence (two identical goroutine censuses, " +
+			"no timers) and no goroutine with a frame in, or created by, the module may remain; blocked consumers must have returned; exhaust must end with io.EOF. " +
+			"distinct_nontrivial = distinct (construct, stop mode, cut class, workers) in which >= 1 module goroutine was alive when the stop was issued",
+		assumptions: append([]string{"every Split output is closed (any order) or the context is cancelled; an abandoned un-closed output is not a documented stop (DESIGN 7b)",
+			"scenarios use no timers; a watchdog expiry without quiescence is inconclusive"}, commonAssumptions...),
+		floorEvals:    500,
+		floorDistinct: 80,
+		quick:         []buildSpec{plain(8)},
+		thorough:      []buildSpec{plain(16)},
+	}
+}
